@@ -320,9 +320,30 @@ theorem verifyContainer_nil (ch : Chip) (v : Ver) (u : UContainer)
     (hn : u.placed ≠ [])
     (hL : headerLength v u.placed.length (sbLayout v u.cont.sb).length ≤ 65535)
     (hblob : ∀ b, u.cont.sb.blob = some b → BlobWF b u.cont.dek ∧ b.length ≠ 0)
-    (hp : ∀ p ∈ u.placed, PlacedWF ch v u.base p) :
+    (hp : ∀ p ∈ u.placed, PlacedWF ch v u.base p)
+    (hauth : u.cont.srkSet = 0 → u.cont.sb.srk.length = 0 ∧ u.cont.sb.sigSize v = 0) :
     verifyContainer ch v (toVContainer v u) = [] := by
-  unfold verifyContainer toVContainer
+  have hA : authenticityRecord (toVContainer v u) = [] := by
+    unfold authenticityRecord toVContainer toVSigBlock
+    simp only
+    split
+    · rename_i h0
+      have hs : u.cont.srkSet = 0 := by
+        have hb : (getFI (u.cont.flags : Int) AhabConsts.cFlagsSrkSetOffset AhabConsts.cFlagsSrkSetSize) = 0 := by simpa using h0
+        unfold getFI at hb
+        unfold Container.srkSet
+        rw [getF_eq]
+        have e0 : AhabConsts.cFlagsSrkSetOffset = 0 := rfl
+        have e2 : AhabConsts.cFlagsSrkSetSize = 2 := rfl
+        rw [e0, e2] at hb ⊢
+        simp at hb ⊢
+        omega
+      have := hauth hs
+      simp [this.1, this.2]
+    · rfl
+  unfold verifyContainer
+  rw [hA, List.append_nil]
+  unfold toVContainer
   simp only
   have hver : v.containerVersion ≤ 255 := by cases v <;> decide
   rw [verifyHeader_nil [AhabConsts.containerTag] [v.containerVersion] _ AhabConsts.containerTag v.containerVersion
@@ -349,5 +370,16 @@ theorem verifyContainer_nil (ch : Chip) (v : Ver) (u : UContainer)
   rw [List.flatMap_eq_nil_iff]
   intro p hpm
   exact verifyIae_nil ch v u.base p (hp p hpm)
+
+
+/-- SRK set 'none' on a container that still carries an SRK table or a signature IS reported (commit 457be4d) -/
+theorem srkSetNone_reported (ch : Chip) (v : Ver) (c : VContainer) (sb : VSigBlock) (hsb : c.sb = some sb)
+    (h0 : getFI c.flags AhabConsts.cFlagsSrkSetOffset AhabConsts.cFlagsSrkSetSize = 0)
+    (hp : sb.srk.present = true ∨ sb.sig.present = true) : "Signature block" ∈ verifyContainer ch v c := by
+  unfold verifyContainer authenticityRecord
+  rw [hsb]
+  simp only [h0, beq_self_eq_true, if_true]
+  have : (sb.srk.present || sb.sig.present) = true := by rcases hp with h | h <;> simp [h]
+  simp [this]
 
 end SpsdkVerif.AhabVerify
